@@ -25,7 +25,7 @@ let z_of_int i = z_of_bz (BZ.of_int i)
 let int_of_z z = BZ.to_int (bz_of_z z)
 
 (* token stream over one input line *)
-type toks = { a : string array; mutable i : int }
+type toks = { a : String.t array; mutable i : int }
 let toks_of_line l =
   { a = Array.of_list (List.filter (fun s -> s <> "") (String.split_on_char ' ' (String.trim l))); i = 0 }
 let next t = let s = t.a.(t.i) in t.i <- t.i + 1; s
